@@ -2,6 +2,7 @@ package ag
 
 import (
 	"fmt"
+	"github.com/cosmos/cosmos-sdk/x/feegrant"
 	abci "github.com/tendermint/tendermint/abci/types"
 	"math/big"
 	"math/rand"
@@ -122,6 +123,17 @@ func (w *world) apply(op kernel.Op) {
 		})
 	case "param":
 		w.opParam(op)
+	case "squat":
+		// a fee allowance granted to the address of a module account: x/feegrant creates a plain account for a
+		// grantee that has none, also at an address reserved for a module that has not instantiated its account yet
+		u := w.users[kernel.Mod(op.Arg(0), len(w.users))]
+		name := moduleAccounts[kernel.Mod(op.Arg(1), len(moduleAccounts))]
+		msg, err := feegrant.NewMsgGrantAllowance(&feegrant.BasicAllowance{}, u.Acc, authtypes.NewModuleAddress(name))
+		if err != nil {
+			return
+		}
+		w.rec.Fault("adv.account_at_module_address")
+		w.mempool = append(w.mempool, &intent{kind: "squat", signer: u, msgs: []sdk.Msg{msg}, desc: fmt.Sprintf("fee allowance %s -> module address of %s", u.Label, name)})
 	case "convcoin":
 		w.opConvCoin(op)
 	case "converc":
